@@ -20,11 +20,16 @@ package eval
 //@   requires [fd-non-negative] 0 <= i
 //@   requires [fd-bounded] i < 1048576
 //@   ensures result != nil
+//@   modifies *s
+//@   ensures [table-size] i < len(*s) && len(*s) >= old(len(*s)) && (len(*s) == old(len(*s)) || len(*s) == i + 1)
 
 //@ func evalForFd
 //@   props C42 C17
 //@   results fd err
 //@   ensures err == nil && !closeOK ==> true
+//   evaluating the fd expression runs program code in forked frames; this
+//   frame's port table is only changed by redirOp.exec itself (assumed)
+//@   assumes len(fm.ports) == old(len(fm.ports))
 
 //@ func makeFlag
 //@   props C42
@@ -42,8 +47,17 @@ package eval
 //@   ensures mode == parse.Read ==> result.sendError == nil
 //@   ensures mode != parse.Read ==> result.Chan == nil && result.sendError != nil
 
+// The port table only ever grows through growAccess, so it has at most 2^20
+// entries (stated here, preserved by exec).
 //@ func redirOp.exec
 //@   props C42 C17
+//@   requires [ports-bounded] len(fm.ports) <= 1048576
+
+// The FD that takes over a shared port is another slot of the same table.
+//@ func otherFdOfPort
+//@   props C42 C17
+//@   ensures [other-slot] result == -1 || (0 <= result && result < len(ports) && result != fd && ports[result] == p)
+//@   loop 1 invariant forall k int :: 0 <= k && k < range_pos ==> true
 
 // Boundary contracts of the evaluator used by the functions above (trusted:
 // they build error values or evaluate user code, which is outside the subset).
@@ -58,6 +72,7 @@ package eval
 //@ func evalForValue
 //@   trusted
 //@   results value err
+//@   ensures len(fm.ports) == old(len(fm.ports))
 
 // ---------------------------------------------------------------------------
 // C17 sweep: builtins whose arguments come straight from the program. No
